@@ -49,7 +49,9 @@ def sgp4 : Handler := fun args =>
   | some (t, rest) =>
     match rest with
     | norm :: force :: tss =>
-      let el := elements t
+      match elementsChecked t with
+      | .error err => "init=" ++ initErrStr err
+      | .ok el =>
       let head := dumpElements el
       match init el with
       | .error err => " ".intercalate (head ++ ["init=" ++ initErrStr err])
@@ -80,8 +82,10 @@ def str3 : Handler := fun args =>
         omegao := d2r t.arg_perigee, xmo := d2r t.mean_anomaly, xnodeo := d2r t.right_ascension, bstar := t.bstar }
     let per (s : String) : String :=
       let (p, v, ratio, simp) := Str3.sgp4 l (parseF s)
-      "| " ++ fmtFs [p.x, p.y, p.z, v.x, v.y, v.z, ratio] ++ (if simp then " 1" else " 0")
-    " ".intercalate ([fmtF (Str3.perigeeKm l), fmtF (Str3.periodMin l)] ++ tss.map per)
+      let (a, e0, elsq, rk) := Str3.decay l (parseF s)
+      "| " ++ fmtFs [p.x, p.y, p.z, v.x, v.y, v.z, ratio] ++ (if simp then " 1 " else " 0 ") ++ fmtFs [a, e0, elsq, rk]
+    let r := Str3.recover l
+    " ".intercalate ([fmtF (Str3.perigeeKm l), fmtF (Str3.periodMin l), fmtF r.aodp, fmtF r.xnodp] ++ tss.map per)
 
 def handlers : List (String × Handler) := [("sgp4", sgp4), ("str3", str3)]
 end PV.Drv.Sgp4
